@@ -180,13 +180,16 @@ impl<'r> G<'r> {
                     let idx = e(Ty::U64, EK::Lit(Val::Int(big(self.rng.gen_range(0..2)))));
                     e(t.clone(), EK::Index(e(at, EK::Array(vec![a, b])), idx))
                 }
-                96..=97 if *t == Ty::U64 => {
+                96..=99 if *t == Ty::U64 => {
                     // user function call (const-fn style): helper cf_mix(a, b) = (a ^ b) + (a & b)
                     self.ops.push("call".into());
                     self.uses_helper = true;
                     let a = self.expr(t, depth - 1);
                     let b = self.expr(t, depth - 1);
-                    e(Ty::U64, EK::Call(1, vec![a, b]))
+                    // cf_mix / cf_asym / cf_swap / cf_deep (the last two call another helper with
+                    // permuted arguments)
+                    let which = *crate::common::choose(self.rng, &[1usize, 2, 3, 3, 4, 4]);
+                    e(Ty::U64, EK::Call(which, vec![a, b]))
                 }
                 _ => self.leaf(t),
             },
@@ -238,18 +241,36 @@ fn subst(x: &Expr, leaves: &[(String, Ty, Val)]) -> Expr {
     y
 }
 
-/// funcs[1] of every C06 program: a small user function called from constant expressions
-fn helper_func() -> Func {
-    let a = e(Ty::U64, EK::Var("a".into()));
-    let b = e(Ty::U64, EK::Var("b".into()));
-    let x = e(Ty::U64, EK::Bin(BinOp::Xor, a.clone(), b.clone()));
-    let y = e(Ty::U64, EK::Bin(BinOp::And, a, b));
-    Func { name: "cf_mix".into(), params: vec![("a".into(), Ty::U64, false), ("b".into(), Ty::U64, false)], ret: Ty::U64, body: Block { stmts: vec![], tail: Some(e(Ty::U64, EK::Bin(BinOp::Add, x, y))) }, inline_never: false }
+/// funcs[1..] of every C06 program: small user functions called from constant expressions.
+/// cf_mix is symmetric; cf_asym is not; cf_swap and cf_deep call another helper with permuted /
+/// rewritten arguments whose names coincide with the callee's parameter names (so that the order
+/// in which a const-evaluator binds parameters and evaluates the remaining arguments matters).
+fn helper_funcs() -> Vec<Func> {
+    let v = |n: &str| e(Ty::U64, EK::Var(n.into()));
+    let lit = |k: u64| e(Ty::U64, EK::Lit(Val::Int(big(k))));
+    let bin = |op: BinOp, a: Expr, b: Expr| e(Ty::U64, EK::Bin(op, a, b));
+    let params = || vec![("a".to_string(), Ty::U64, false), ("b".to_string(), Ty::U64, false)];
+    let mk = |name: &str, tail: Expr| Func { name: name.into(), params: params(), ret: Ty::U64, body: Block { stmts: vec![], tail: Some(tail) }, inline_never: false };
+    vec![
+        mk("cf_mix", bin(BinOp::Add, bin(BinOp::Xor, v("a"), v("b")), bin(BinOp::And, v("a"), v("b")))),
+        // (a & 0xffff) * 3 + (b & 0xff)
+        mk("cf_asym", bin(BinOp::Add, bin(BinOp::Mul, bin(BinOp::And, v("a"), lit(0xffff)), lit(3)), bin(BinOp::And, v("b"), lit(0xff)))),
+        // cf_asym(b, a)
+        mk("cf_swap", e(Ty::U64, EK::Call(2, vec![v("b"), v("a")]))),
+        // cf_swap(b ^ 1, a)
+        mk("cf_deep", e(Ty::U64, EK::Call(3, vec![bin(BinOp::Xor, v("b"), lit(1)), v("a")]))),
+    ]
+}
+
+fn with_helpers(first: Func) -> Vec<Func> {
+    let mut v = vec![first];
+    v.extend(helper_funcs());
+    v
 }
 
 fn program_for(c: &CExpr) -> Program {
     let f = Func { name: "rt".into(), params: c.leaves.iter().map(|(n, t, _)| (n.clone(), t.clone(), false)).collect(), ret: c.ty.clone(), body: Block { stmts: vec![], tail: Some(c.expr.clone()) }, inline_never: false };
-    Program { types: Types::default(), consts: vec![], funcs: vec![f, helper_func()], main_params: c.leaves.iter().map(|(_, t, _)| t.clone()).collect(), ret: c.ty.clone(), entries: vec![0], uses_generics: false }
+    Program { types: Types::default(), consts: vec![], funcs: with_helpers(f), main_params: c.leaves.iter().map(|(_, t, _)| t.clone()).collect(), ret: c.ty.clone(), entries: vec![0], uses_generics: false }
 }
 
 fn reference(c: &CExpr) -> Result<Vec<u8>, RevertKind> {
@@ -260,7 +281,7 @@ fn reference(c: &CExpr) -> Result<Vec<u8>, RevertKind> {
 
 fn print_expr(x: &Expr) -> String {
     let dummy = Func { name: "rt".into(), params: vec![], ret: Ty::U64, body: Block::default(), inline_never: false };
-    let p = Program { types: Types::default(), consts: vec![], funcs: vec![dummy, helper_func()], main_params: vec![], ret: Ty::U64, entries: vec![], uses_generics: false };
+    let p = Program { types: Types::default(), consts: vec![], funcs: with_helpers(dummy), main_params: vec![], ret: Ty::U64, entries: vec![], uses_generics: false };
     let mut pr = Printer::new(&p);
     pr.expr(x)
 }
@@ -281,7 +302,7 @@ pub fn gen_cexpr(rng: &mut StdRng) -> CExpr {
     CExpr { ty, expr, leaves: g.leaves, ops: g.ops }
 }
 
-const HELPER: &str = "fn cf_mix(a: u64, b: u64) -> u64 {\n    (a ^ b) + (a & b)\n}\n";
+const HELPER: &str = "fn cf_mix(a: u64, b: u64) -> u64 {\n    (a ^ b) + (a & b)\n}\nfn cf_asym(a: u64, b: u64) -> u64 {\n    (a & 65535u64) * 3u64 + (b & 255u64)\n}\nfn cf_swap(a: u64, b: u64) -> u64 {\n    cf_asym(b, a)\n}\nfn cf_deep(a: u64, b: u64) -> u64 {\n    cf_swap(b ^ 1u64, a)\n}\n";
 
 /// The batch script for non-reverting expressions.
 fn batch_source(cs: &[CExpr]) -> String {
